@@ -6,6 +6,7 @@ import random
 import common as C
 import hist
 import progs as P
+import values as V
 
 
 def plan(seed):
@@ -27,7 +28,7 @@ def plan(seed):
     if cands:
         m, v = rng.choice(cands)
         old = prog["modules"][m]["vars"][v]
-        new = rng.choice([x for x in P.VAR_VALUES if x != old])
+        new = rng.choice([x for x in P.VAR_VALUES if V.canon(x) != V.canon(old)])
         sv = ("act", {"a": "setvar", "mod": m, "name": v, "value": new})
         sv_back = ("act", {"a": "setvar", "mod": m, "name": v, "value": old})
         ev2 = [("prog", prog), ("act", restricted), sv, ("act", call), sv_back, ("act", restricted), ("act", call)]
